@@ -173,6 +173,67 @@ impl FieldType for A32 {
     }
 }
 
+/// Alignment 64 (a cache line), 64 bytes.
+#[derive(Clone, Copy, Debug, PartialEq, Eq, Serialize, Deserialize)]
+#[repr(align(64))]
+pub struct A64(pub u32);
+
+impl FieldType for A64 {
+    fn make(seed: u64) -> Self {
+        A64(mix(seed) as u32)
+    }
+    fn digest(&self) -> u64 {
+        self.0 as u64
+    }
+    fn expect(seed: u64) -> u64 {
+        (mix(seed) as u32) as u64
+    }
+    fn mutate(&mut self, seed: u64) {
+        self.0 = mix(seed) as u32;
+    }
+}
+
+/// 320 bytes of plain data.
+#[derive(Clone, Copy, Debug, PartialEq, Eq)]
+pub struct Wide320(pub [u64; 40]);
+
+impl Serialize for Wide320 {
+    fn serialize<S: Serializer>(&self, s: S) -> Result<S::Ok, S::Error> {
+        self.0.to_vec().serialize(s)
+    }
+}
+
+impl<'de> Deserialize<'de> for Wide320 {
+    fn deserialize<D: Deserializer<'de>>(d: D) -> Result<Self, D::Error> {
+        let v = Vec::<u64>::deserialize(d)?;
+        let a: [u64; 40] = v.try_into().map_err(|_| D::Error::custom("expected 40 words"))?;
+        Ok(Wide320(a))
+    }
+}
+
+impl FieldType for Wide320 {
+    fn make(seed: u64) -> Self {
+        let mut i = 0u64;
+        Wide320([(); 40].map(|_| {
+            i += 1;
+            mix(seed.wrapping_mul(131).wrapping_add(i))
+        }))
+    }
+    fn digest(&self) -> u64 {
+        let mut h = 0xcbf29ce484222325u64;
+        for x in self.0.iter() {
+            h = (h ^ *x).wrapping_mul(0x100000001b3);
+        }
+        h
+    }
+    fn expect(seed: u64) -> u64 {
+        Self::make(seed).digest()
+    }
+    fn mutate(&mut self, seed: u64) {
+        *self = Self::make(seed);
+    }
+}
+
 /// Zero-size, alignment 16, no drop glue.
 #[derive(Clone, Copy, Debug, PartialEq, Eq, Serialize, Deserialize, Default)]
 #[repr(align(16))]
@@ -586,7 +647,7 @@ mod tests {
         law::<()>(); law::<[u8; 3]>(); law::<[u16; 3]>(); law::<[u32; 3]>(); law::<[u64; 3]>(); law::<[u64; 0]>(); law::<[u8; 5]>();
         law::<(u8, u32)>(); law::<A16>(); law::<A32>(); law::<Z16>(); law::<String>(); law::<Vec<u32>>(); law::<Box<str>>();
         law::<Option<String>>(); law::<[String; 2]>(); law::<Tok8>(); law::<Tok4>(); law::<Tok12>(); law::<Tok16>();
-        law::<TokBox>(); law::<Tok3>(); law::<TokZ>(); law::<BigTok>(); law::<Vec<Tok8>>(); law::<[u64; 12]>();
+        law::<TokBox>(); law::<Tok3>(); law::<TokZ>(); law::<BigTok>(); law::<Vec<Tok8>>(); law::<[u64; 12]>(); law::<A64>(); law::<Wide320>();
         assert!(crate::ledger_live().is_empty());
         assert_eq!(crate::zst_live(), 0);
         assert!(crate::ledger_take_errors().is_empty());
